@@ -84,8 +84,20 @@ ZSLICES = [
 ]
 
 
+# the expression slices that lie inside the regions translated as a whole (py2coq_kernel): the layer step of ivp_solver
+# and the trapezoid update of the mean mode.  They go to GenStep.v / Bridge/StepBridge.v.
+STEP_NAMES = ("Ti", "Kzinv", "dzi", "a", "b", "c", "d", "p_next", "q_next", "mean_update")
+STEP_SLICES = [sl for sl in SLICES if sl["name"] in STEP_NAMES]
+REST_SLICES = [sl for sl in SLICES if sl["name"] not in STEP_NAMES]
+STEP_LEMMAS = ["bridge_Ti", "bridge_Kzinv", "bridge_dzi", "bridge_a", "bridge_b", "bridge_c", "bridge_d", "bridge_step", "bridge_mean_update"]
+
+
 def generate():
-    return py2coq.translate(SOLVER(), SLICES, "ops")
+    return py2coq.translate(SOLVER(), REST_SLICES, "ops")
+
+
+def generate_step():
+    return py2coq.translate(SOLVER(), STEP_SLICES, "ops")
 
 
 def generate_z():
@@ -96,14 +108,60 @@ SKELETON = os.path.join(os.path.dirname(os.path.abspath(__file__)), "solver_skel
 
 
 def current_skeleton():
+    """the body of ivp_solver and the mean-mode block of steady_state_transport_solver are translated and bridged as a
+    whole (py2coq_kernel / Bridge/KernelBridge.v): they appear as one placeholder line each, so that a rewrite of their
+    loops is judged by the bridge lemmas and not by its text.  If the regions cannot be located nothing is elided (and
+    the skeleton differs from the expectation)."""
     import skeleton
-    return skeleton.module_skeleton(SOLVER(), [SST, IVP], SLICES + ZSLICES)
+    import py2coq_kernel
+
+    def elide(tree):
+        try:
+            return py2coq_kernel.elide(tree)
+        except Exception:
+            return {}
+
+    return skeleton.module_skeleton(SOLVER(), [SST, IVP], SLICES + ZSLICES, elide)
+
+
+KERNEL_TRUSTED = [
+    "harness/py2coq_kernel.py (fail-closed whole-function translator of ivp_solver and of the mean-mode block of steady_state_transport_solver -> GenKernel.v): its reading of the arrays - numpy broadcasting over the mode axis is ELEMENTWISE, so the body is translated for ONE horizontal mode; an array of shape (nlvls, nxy) is the list of its nlvls slots for that mode and `a[lvl, ...] = x` updates slot lvl; profile arrays are lists indexed by node; np.diff(z)[i] = z[i+1] - z[i]; np.copy / rebinding of a name does not alias (the accepted fragment has no in-place operation on arrays over modes or nodes); range / enumerate / list comprehension / tuple assignment have their Python semantics",
+    "Bridge/KernelBridge.v: gen_ivp_solver = Solver.ivp and gen_mean_mode = Solver.mean_loop for ALL inputs (closed under the global context, hypothesis Laws O only for the layer-step / trapezoid algebra; the loop structure needs no field law)",
+]
+KERNEL_ASSUMPTIONS = [
+    "kernel bridge: the column has at least one node and every profile array has at least nz - 1 entries (Kz: nz for the mean mode) - otherwise Python raises IndexError (numba: reads out of bounds) and the model's truncating zip does not describe it; level entries are non-negative ints (a negative entry never matches a node index in the code; the model's level lists are lists of nat)",
+]
+
+
+def run_kernel(ctx):
+    """whole-function tie of the kernel: ivp_solver and the mean-mode block -> GenKernel.v -> Bridge/KernelBridge.v
+    (once per check: the skeleton elides exactly the statements this covers)"""
+    if getattr(ctx, "_kernel_done", None) is not None:
+        return ctx._kernel_done
+    import py2coq_kernel
+    try:
+        text = py2coq_kernel.generate(SOLVER())
+    except Exception as e:  # fail closed (TranslateError or anything unexpected in the source)
+        ctx.obligation("gen:GenKernel.v", False, "whole-function translator of the kernel failed closed: %s: %s" % (type(e).__name__, e))
+        ctx._kernel_done = False
+        return False
+    ctx.cov["whole_functions_translated"] = ctx.cov.get("whole_functions_translated", []) + [
+        "solver.ivp_solver (whole body, one mode)", "solver.steady_state_transport_solver: mean-mode block"]
+    for t in KERNEL_TRUSTED:
+        if t not in ctx.trusted:
+            ctx.trusted.append(t)
+    for t in KERNEL_ASSUMPTIONS:
+        if t not in ctx.assumptions:
+            ctx.assumptions.append(t)
+    ctx._kernel_done = core.run_bridge(ctx, {"GenKernel.v": text}, ["KernelBridge.v"])
+    return ctx._kernel_done
 
 
 def check_skeleton(ctx):
     """every statement of solver.py's two functions and its module level is either bridged or exactly the expected one"""
     import json
     import skeleton
+    run_kernel(ctx)
     try:
         got = current_skeleton()
     except Exception as e:  # fail closed
@@ -118,14 +176,32 @@ def check_skeleton(ctx):
 
 def run(ctx):
     """translate + compile + bridge; registers proof obligations on ctx"""
-    check_skeleton(ctx)
+    check_skeleton(ctx)  # runs the whole-function tie of the kernel first (run_kernel)
+    kernel_ok = bool(getattr(ctx, "_kernel_done", False))
+    ok_step = True
+    try:
+        step = generate_step()
+    except py2coq.TranslateError as e:
+        step = None
+        if kernel_ok:
+            # the slices address statements by the names of locals (`Ti`, `Kx[i]`, `fftpi`); the names moved, but
+            # bridge_ivp_solver / bridge_mean_mode hold for the current source and imply every lemma of StepBridge.v
+            ctx.cov["step_slices_subsumed"] = {
+                "by": ["bridge_ivp_solver", "bridge_mean_mode"], "lemmas": STEP_LEMMAS,
+                "why": "expression slices not found by name (%s); the whole-function bridge of the kernel holds" % e}
+        else:
+            ctx.obligation("gen:GenStep.v", False, "slice translator failed closed: %s" % e)
+            ok_step = False
+    if step is not None:
+        ctx.cov["slices_translated"] = ctx.cov.get("slices_translated", 0) + len(STEP_SLICES)
+        ok_step = core.run_bridge(ctx, {"GenStep.v": step}, ["StepBridge.v"])
     try:
         text = generate()
     except py2coq.TranslateError as e:
         ctx.obligation("gen:GenSolver.v", False, "slice translator failed closed: %s" % e)
         return False
-    ctx.cov["slices_translated"] = ctx.cov.get("slices_translated", 0) + len(SLICES)
-    ok = core.run_bridge(ctx, {"GenSolver.v": text}, ["SolverBridge.v"])
+    ctx.cov["slices_translated"] = ctx.cov.get("slices_translated", 0) + len(REST_SLICES)
+    ok = core.run_bridge(ctx, {"GenSolver.v": text}, ["SolverBridge.v"]) and ok_step
     try:
         ztext = generate_z()
     except py2coq.TranslateError as e:
